@@ -3,7 +3,7 @@
     theorem of the traversal (RunSound.run_sound) applies to port-graph automata
     that pass [lab_ok] with these atoms. *)
 From PM Require Import Model.Prelude Model.Domain Model.Constraint Model.BindMaps Model.Automaton Model.Traversal
-  Model.DomPGKeys Model.DomPG Cert.LabCheck Proofs.BindMapProofs Proofs.RunSound Proofs.PGTreeProofs.
+  Model.DomPGKeys Model.DomPG Cert.LabCheck Cert.PGCert Proofs.BindMapProofs Proofs.RunSound Proofs.PGTreeProofs.
 Local Open Scope N_scope.
 
 Lemma pgpred_eqb_eq a b : pgpred_eqb a b = true <-> a = b.
@@ -32,15 +32,6 @@ Proof.
     rewrite (aretain_get pgkey_eqb pgkey_eqb_eq ks m k).
     rewrite (proj2 (memb_in pgkey_eqb pgkey_eqb_eq k ks) Hk). reflexivity.
 Qed.
-
-(** a not-equal constraint with at least one other node is the conjunction of the
-    pairwise not-equal constraints *)
-Definition pg_atoms (c : pgconstraint) : list pgconstraint :=
-  match cpred c, cargs c with
-  | IsNotEqual _, k :: ((_ :: _) as others) =>
-      map (fun o => {| cpred := IsNotEqual 1; cargs := [k; o] |}) others
-  | _, _ => [c]
-  end.
 
 Lemma resolve_cons_inr (m : pgmap) k ks vs :
   resolve_args pg_dom m (k :: ks) = inr vs <->
